@@ -1,4 +1,5 @@
 import Mimium.Model.StageWitness
+import Mimium.Proofs.CoreRename
 /-!
 # C10 — hygiene of macros
 
@@ -14,9 +15,24 @@ in spliced code. For the model of the current implementation the unrestricted pr
   (finding S2; `fn dsp(){ let __dt0 = 5.0; let ((a,b),c) = ((1.0,2.0),3.0); __dt0 }` returns the tuple `(1,2)` as soon as
   the program uses the macro system, 5 otherwise / with another name).
 
-What holds is the conditional property (`NoClash`): see the theorems below.
-The check keeps searching the NoClash space on the real compiler (original vs binder-renamed macro must agree) and
-reports the complement as the known class `¬NoClash`.
+What holds is the conditional property. Expansion is substitution of the argument code into the template by names
+(C09: `C09_quote_fills_holes`, `C09_expand_sound`); at the level of the core language (`Proofs/CoreRename.lean`):
+
+* `C10_equivariance` — the reference evaluator is equivariant under every injective renaming of variables
+  (`eval (π•env) (π•e) = eval env e`: same value, same store, same state), for closure-free code, all fuel, all stores;
+* `C10_rename_commutes_with_splicing` — renaming commutes with splicing when the spliced fragments do not mention the
+  renamed names;
+* `C10_hygienic_if_noclash` — hence: under the decidable premise `noClash y z frags env` (no spliced fragment mentions
+  the old name `y` or the new name `z`; the use-site environment binds neither), the expansion of the macro whose
+  binder `y` is consistently renamed to `z` (`swapN y z` applied to the template) evaluates exactly like the expansion
+  of the original macro — for every template, every argument code, every store and state, every run length.
+
+PARTIAL: the conditional theorem covers closure-free templates/arguments (no `lam`/`app`: their values carry names and
+need a relation instead of equality); the step from trees of `Model/Stage.lean` to core expressions is the reader
+`toCoreProg` (exercised, not verified); evaluation contexts around the expansion are not part of the statement (the
+expansions evaluate identically in the environment of the hole, so the surrounding evaluation is the same function of it).
+The check searches the NoClash space on the real compiler (original vs binder-renamed macro must agree) and reports the
+complement as the known class `¬NoClash` (F6, S1).
 -/
 namespace Mimium.Stage
 
@@ -31,3 +47,34 @@ theorem C10_generated_name_capture_witness :
     dtRun "zz" = .num bits5 ∧ dtRun "__dt0" = .tuple := by decide +kernel
 
 end Mimium.Stage
+
+namespace Mimium.Core
+
+/-- the reference evaluator is equivariant under injective renamings of variables (closure-free code) -/
+theorem C10_equivariance (P : Prog) (rt : Rt) (π : String → String) (hπ : ∀ a b, π a = π b → a = b) (fuel : Nat)
+    (e : Expr) (hcf : closureFree e = true) (env : Env) (σ : Store) (st : SNode) :
+    ResEq (eval fuel P rt (renEnv π env) (renE π e) σ st) (eval fuel P rt env e σ st) :=
+  (equivariant P rt π hπ fuel).1 e hcf env σ st
+
+/-- renaming a template and then splicing = splicing and then renaming, when the fragments are untouched by the renaming -/
+theorem C10_rename_commutes_with_splicing (π : String → String) (hπ : ∀ a b, π a = π b → a = b)
+    (frags : List (String × Expr)) (hs : FragsFixed π frags) (T : Expr) :
+    substE frags (renE π T) = renE π (substE frags T) :=
+  (renE_substE π hπ frags hs T).symm
+
+/-- **Hygiene under NoClash.** `T` = macro template (holes = the variables bound in `frags`), `frags` = the argument code,
+`env` = environment of the use site. If no fragment mentions `y` or `z` and `env` binds neither, then consistently
+renaming `y` to `z` inside the macro body does not change what the expansion evaluates to (value, store and state). -/
+theorem C10_hygienic_if_noclash (P : Prog) (rt : Rt) (y z : String) (T : Expr) (frags : List (String × Expr)) (env : Env)
+    (hnc : noClash y z frags env = true) (hcf : closureFree (substE frags T) = true)
+    (fuel : Nat) (σ : Store) (st : SNode) :
+    ResEq (eval fuel P rt env (substE frags (renE (swapN y z) T)) σ st) (eval fuel P rt env (substE frags T) σ st) := by
+  rw [C10_rename_commutes_with_splicing (swapN y z) (swapN_inj y z) frags (noClash_frags hnc) T]
+  have h := C10_equivariance P rt (swapN y z) (swapN_inj y z) fuel (substE frags T) hcf env σ st
+  rwa [noClash_env hnc] at h
+
+/-- the premise is not vacuous, and it is violated by the capture witness (`frags = [x ↦ y]`, binder `y`) -/
+example : noClash "y" "z" [("x", .var "w")] [("w", 0)] = true := by decide
+example : noClash "y" "z" [("x", .var "y")] [("y", 0)] = false := by decide
+
+end Mimium.Core
